@@ -1105,6 +1105,11 @@ var nestedLongCases = []nestedLong{
 	{func() interface{} { return new(cat.TCounted) }, []byte{0x0B, 0x01}},
 	{func() interface{} { return new(cat.TCounted) }, []byte{0x1B, 0x01}},
 	{func() interface{} { return new(cat.TCounted) }, []byte{0x1B, 0x01, 0xFF, 0x12}},
+	// unknown counted fields (skipped): entry length, count
+	{func() interface{} { return new(cat.TIn) }, []byte{0x1B, 0x01}},
+	{func() interface{} { return new(cat.TIn) }, []byte{0x1B}},
+	{func() interface{} { return new(cat.TNested) }, []byte{0x0A, 0xFF, 0x1B, 0x01}},
+	{func() interface{} { return new(cat.TMapSI) }, []byte{0x0B, 0x01, 0xFF, 0x1B, 0x01}},
 	// nested struct: inner string length, inner unknown field
 	{func() interface{} { return new(cat.TNested) }, []byte{0x0A, 0xFF, 0x12}},
 	{func() interface{} { return new(cat.TNested) }, []byte{0x0A, 0xFF, 0x3A}},
